@@ -14,6 +14,7 @@ EXTERNAL_VARIANTS = {
     "std::result::Result": {0: "Ok", 1: "Err"},
     "std::collections::hash_map::Entry": {0: "Occupied", 1: "Vacant"},
     "std::sync::mpsc::TryRecvError": {0: "Empty", 1: "Disconnected"},
+    "std::sync::mpmc::TryRecvError": {0: "Empty", 1: "Disconnected"},
     "std::ops::ControlFlow": {0: "Continue", 1: "Break"},
     "std::borrow::Cow": {0: "Borrowed", 1: "Owned"},
 }
